@@ -138,3 +138,18 @@ func H_C03_cusum_cases(n int) {
 	vAssert(z >= 1 && z <= n, "1 <= Z <= n")
 	vReach("end")
 }
+
+// the two sequences with excursion Z = 1 (strict alternation) at the standard's lengths: the series then has n terms.
+// (the case Z = 1 of the split consists of exactly these two inputs; they are evaluated concretely)
+func H_C03_cusum_alt(n, first, fwd int) {
+	x := make([]bool, n)
+	for i := range x {
+		x[i] = (i+first)%2 == 1
+	}
+	p, q := CumulativeTest(x, fwd == 1)
+	sp := specCusumP(n, 1)
+	vAssert(specMaxExcursion(x) == 1, "alternating sequence has excursion 1")
+	vClose(p, sp, 1e-8, "P")
+	vClose(q, sp, 1e-8, "Q")
+	vReach("end")
+}
